@@ -334,8 +334,8 @@ func cases(sp *fuzzSpec, ms schema.ModelSet, maxlen, nrand int, sd int64, want f
 		}
 		for c := 0; c < nctx; c++ {
 			lim := maxlen
-			if c == 0 && lim > 1 {
-				lim-- // the bare context: almost every string is ill-formed at its first token
+			if c != 1 && lim > 1 {
+				lim-- // full length inside the top container only (bare: ill-formed at the first token)
 			}
 			for n := 0; n <= lim; n++ {
 				digits := make([]int, n)
